@@ -1010,24 +1010,19 @@ func runR16_2(c *Ctx, r *R) {
 			continue
 		}
 		key := fnKey(f) + "/absent-tag"
-		good := false
-		for _, ret := range returnsOf(f) {
-			if len(ret.Results) == 1 && isNilConst(ret.Results[0]) {
-				for _, cd := range pathConds(ret.Block()) {
-					for _, rel := range relsOf(cd) {
-						if rel.Op == token.LSS && isConstInt(rel.Y, 0) {
-							good = true
-						}
-					}
-				}
-				// go/ssa merges  end < 0 || end > size  into one block through short-circuit edges: accept a nil
-				// return in a block with two predecessors both testing `end`
-				if len(ret.Block().Preds) >= 2 {
-					good = true
-				}
+		// the table lookup whose negative result means "not in the table"
+		var look ssa.Value
+		for _, call := range callsIn(f, false) {
+			if o := calleeObj(call); o != nil && (objName(o) == "MessageTable.Offset" || objName(o) == "MessageTable.OffsetByIndex") {
+				look = call.Value()
 			}
 		}
-		r.Check(good, key, f.Pos(), "a tag that is not in the table (-1) reads as nil bytes", "a missing tag is not mapped to nil bytes")
+		if look == nil {
+			r.Unk(key, f.Pos(), "anchor lost: no MessageTable.Offset / OffsetByIndex lookup in %s", fn)
+			continue
+		}
+		good := nilWhenNegative(f, look, 0)
+		r.Check(good, key, f.Pos(), "a tag that is not in the table (-1) reads as nil bytes: every path to a non-nil result passes the test lookup >= 0", "a missing tag is not mapped to nil bytes")
 	}
 }
 
